@@ -84,6 +84,10 @@ func (m *CPU) Run(app risc.Application) (int, error) {
 		}
 
 		if ret {
+			for !m.writeBus.IsEmpty() {
+				cycle++
+				m.writeUnit.cycle(m.ctx, m.writeBus)
+			}
 			break
 		}
 		if flush {
